@@ -301,7 +301,10 @@ func (ch c08) multiBind(c *core.Ctx, env *hs.Env, rng *core.Rng) {
 	}
 	var ps []pb
 	long := rng.Intn(4) == 0
-	in := pg.Parse("s", "q", nil)
+	var in []byte
+	var parts [][]byte
+	add := func(m []byte) { in = append(in, m...); parts = append(parts, m) }
+	add(pg.Parse("s", "q", nil))
 	for i := 0; i < n; i++ {
 		pname := fmt.Sprintf("p%d", i)
 		if long {
@@ -321,29 +324,29 @@ func (ch c08) multiBind(c *core.Ctx, env *hs.Env, rng *core.Rng) {
 			b.rf = []int16{int16(rng.Intn(2)), int16(rng.Intn(2)), int16(rng.Intn(2))}
 		}
 		ps = append(ps, b)
-		in = append(in, pg.Bind(b.name, "s", b.pf, b.params, b.rf)...)
+		add(pg.Bind(b.name, "s", b.pf, b.params, b.rf))
 	}
 	if rng.Intn(3) == 0 {
 		// Binds that are rejected (unsupported format code / unknown statement) naming portals that
 		// are already bound: the earlier definitions stay as they were
-		in = append(in, pg.Sync()...)
+		add(pg.Sync())
 		for _, b := range ps {
 			bad := [][]byte{[]byte("REJECTED-" + b.name), []byte("rejected")}
 			if rng.Bool() {
-				in = append(in, pg.Bind(b.name, "s", []int16{7}, bad, nil)...)
+				add(pg.Bind(b.name, "s", []int16{7}, bad, nil))
 			} else {
-				in = append(in, pg.Bind(b.name, "no-such-statement", nil, bad[:1+rng.Intn(2)], nil)...)
+				add(pg.Bind(b.name, "no-such-statement", nil, bad[:1+rng.Intn(2)], nil))
 			}
-			in = append(in, pg.Sync()...)
+			add(pg.Sync())
 		}
 		nrejected = n
 	}
 	withOversize := rng.Intn(3) == 0
 	if withOversize {
 		// a rejected oversized message between Bind and Execute must not disturb bound portals
-		in = append(in, pg.Sync()...)
-		in = append(in, pg.Raw(core.Pick(rng, []byte("QBPd")), bytes.Repeat([]byte{'X'}, 1<<22+1+rng.Intn(5000)))...)
-		in = append(in, pg.Sync()...)
+		add(pg.Sync())
+		add(pg.Raw(core.Pick(rng, []byte("QBPd")), bytes.Repeat([]byte{'X'}, 1<<22+1+rng.Intn(5000))))
+		add(pg.Sync())
 	}
 	order := make([]int, n)
 	for i := range order {
@@ -351,11 +354,31 @@ func (ch c08) multiBind(c *core.Ctx, env *hs.Env, rng *core.Rng) {
 	}
 	rngShuffle(rng, order)
 	for _, i := range order {
-		in = append(in, pg.Describe('P', ps[i].name)...)
-		in = append(in, pg.Execute(ps[i].name, 0)...)
+		add(pg.Describe('P', ps[i].name))
+		add(pg.Execute(ps[i].name, 0))
 	}
-	in = append(in, pg.Sync()...)
-	out, closed := cl.Step(in)
+	add(pg.Sync())
+	// a third of the batches arrive message by message, the client staying silent for a long while after
+	// each one (virtual time: whatever idle deadline the server has set passes) - a portal keeps its Bind's
+	// values however long the client takes before it uses it
+	var out []byte
+	var closed bool
+	if rng.Intn(3) == 0 {
+		for _, m := range parts {
+			var o []byte
+			o, closed = cl.Step(m)
+			out = append(out, o...)
+			cl.C.Pause()
+			o, closed = cl.Wait()
+			out = append(out, o...)
+			if closed || cl.Hung {
+				break
+			}
+		}
+		c.Count("multi_bind_batches_delivered_with_pauses", 1)
+	} else {
+		out, closed = cl.Step(in)
+	}
 	cs := map[string]any{"multi_bind_portals": n}
 	msgs, err := parseAll(out)
 	want := "1" + strings.Repeat("2", n) + strings.Repeat("TDC", n) + "Z"
